@@ -39,6 +39,7 @@ func (c *connObj) wellFramed() *Term {
 }
 
 type endpointState struct {
+	epoch         int
 	addr          string
 	tcpBeh, udpBeh *Term
 	reply         []*Term
@@ -47,30 +48,34 @@ type endpointState struct {
 
 // EndpointRec is an endpoint's behaviour under a model.
 type EndpointRec struct {
+	Epoch int    `json:"epoch"`
 	Addr  string `json:"addr"`
 	TCP   int    `json:"tcp"`
 	UDP   int    `json:"udp"`
-	Reply string `json:"reply"` // hex
+	Reply    string `json:"reply"`     // hex, over UDP
+	ReplyTCP string `json:"reply_tcp"` // hex, over TCP
 	Hdr   string `json:"hdr"`   // hex, 4 bytes
 }
 
 func (r *Run) endpoint(addr string) *endpointState {
 	for _, e := range r.endpoints {
-		if e.addr == addr {
+		if e.addr == addr && e.epoch == r.epoch {
 			return e
 		}
 	}
 	// the reply identifies the endpoint (two bytes: marker, endpoint number)
 	var num uint64
 	fmt.Sscanf(addr, "k%d:", &num)
-	e := &endpointState{addr: addr, tcpBeh: r.hvar(8), udpBeh: r.hvar(8), reply: []*Term{BVu(0x6b, 8), BVu(num, 8)}}
+	// the reply identifies the endpoint, the transport and the epoch (three bytes), so that replies over
+	// different transports or in different exchanges need not decode alike
+	e := &endpointState{epoch: r.epoch, addr: addr, tcpBeh: r.hvar(8), udpBeh: r.hvar(8), reply: []*Term{BVu(0x6b, 8), BVu(num, 8), BVu(uint64(2*r.epoch), 8)}}
 	r.addPC(ULe(e.tcpBeh, BVu(3, 8)))
 	r.addPC(ULe(e.udpBeh, BVu(2, 8)))
 	if r.param("tcphdr", 0) == 1 {
 		// the peer announces an arbitrary length (C04: allocation from a peer-supplied length)
 		e.hdr = []*Term{r.hvar(8), r.hvar(8), r.hvar(8), r.hvar(8)}
 	} else {
-		e.hdr = []*Term{BVu(0, 8), BVu(0, 8), BVu(0, 8), BVu(2, 8)}
+		e.hdr = []*Term{BVu(0, 8), BVu(0, 8), BVu(0, 8), BVu(3, 8)}
 	}
 	r.endpoints = append(r.endpoints, e)
 	return e
@@ -86,7 +91,7 @@ func (r *Run) evalEndpoints() []EndpointRec {
 		return s
 	}
 	for _, e := range r.endpoints {
-		out = append(out, EndpointRec{Addr: e.addr, TCP: int(r.sol.Value(e.tcpBeh).Int64()), UDP: int(r.sol.Value(e.udpBeh).Int64()), Reply: hexOf(e.reply), Hdr: hexOf(e.hdr)})
+		out = append(out, EndpointRec{Epoch: e.epoch, Addr: e.addr, TCP: int(r.sol.Value(e.tcpBeh).Int64()), UDP: int(r.sol.Value(e.udpBeh).Int64()), Reply: hexOf(e.reply), ReplyTCP: hexOf(tcpReply(e.reply)), Hdr: hexOf(e.hdr)})
 	}
 	return out
 }
@@ -102,6 +107,10 @@ func (e *Engine) registerNet() {
 		addr := fmt.Sprintf("k%d:88", i)
 		r.endpoint(addr)
 		return concStr(addr)
+	})
+	ns(rtPkg+".NextEpoch", func(r *Run, fr *Frame, cc *ssa.CallCommon, a []Value) Value {
+		r.epoch++ // every endpoint gets fresh, unrelated behaviour variables from now on
+		return TupleV{}
 	})
 	ns(rtPkg+".EndpointAnswers", func(r *Run, fr *Frame, cc *ssa.CallCommon, a []Value) Value {
 		ep := r.endpoint(fmt.Sprintf("k%d:88", r.concretise(a[0].(*Term), "endpoint index")))
@@ -127,7 +136,11 @@ func (e *Engine) registerNet() {
 		if tcp {
 			tn = "TCPConn"
 		}
-		o := r.newObj(types.Typ[types.Int], &connObj{tcp: tcp, addr: addr, beh: beh, reply: ep.reply, hdr: ep.hdr}, "conn")
+		reply := ep.reply
+		if tcp {
+			reply = tcpReply(reply)
+		}
+		o := r.newObj(types.Typ[types.Int], &connObj{tcp: tcp, addr: addr, beh: beh, reply: reply, hdr: ep.hdr}, "conn")
 		return TupleV{&IfaceV{t: netT(r, tn), v: &PtrV{obj: o}}, &IfaceV{}}
 	})
 	for _, t := range []string{"TCPConn", "UDPConn", "conn"} {
@@ -220,3 +233,10 @@ func (r *Run) eofError(fr *Frame) Value {
 }
 
 var addrType = fakeNamed("Addr")
+
+// tcpReply: the reply an endpoint gives over TCP (last byte odd).
+func tcpReply(udp []*Term) []*Term {
+	out := append([]*Term{}, udp...)
+	out[len(out)-1] = BVu(out[len(out)-1].Uint()+1, 8)
+	return out
+}
